@@ -19,6 +19,8 @@
 (*   "predicateKeepsPolarity"  the operands of a comparison / arithmetic   *)
 (*                      operator are visited with the polarity of the      *)
 (*                      comparison                                         *)
+(*   "iffKeepsPolarity"  the operands of iff / xor were visited with the  *)
+(*                      polarity of the iff / xor                          *)
 (*   "negPassesPolarity"  unary minus, ln and log had no visitor: their    *)
 (*                      operands were visited with the polarity unchanged  *)
 (*                      (-(p and q), violated where p and q holds, was     *)
@@ -60,7 +62,10 @@ Ex(p, I, flag, W, N, S, M, Dev) ==
   ELSE IF p.op \in {"neg", "ln"} THEN L(I, IF "negPassesPolarity" \in Dev THEN flag ELSE below)
   ELSE IF p.op \in {"pred", "add", "sub", "mul", "div", "pow"} THEN L(I, below) \cup Rr(I, below)
   ELSE IF p.op = "log" THEN (IF "negPassesPolarity" \in Dev THEN L(I, flag) \cup Rr(I, flag) ELSE L(I, below) \cup Rr(I, below))
-  ELSE IF p.op \in {"iff", "xor"} THEN L(I, flag) \cup Rr(I, flag)    \* (no visitor of their own: the arguments pass through)
+  \* iff / xor: the robustness -|l - r| / |l - r| is a number computed from both operands; like below a comparison there
+  \* is no polarity to follow (deviation iffKeepsPolarity: the code before its repair handed its own polarity down, so
+  \* (p and q) iff r, violated with p and q true, explained p and q as if they were violated - by nothing)
+  ELSE IF p.op \in {"iff", "xor"} THEN (IF "iffKeepsPolarity" \in Dev THEN L(I, flag) \cup Rr(I, flag) ELSE L(I, below) \cup Rr(I, below))
   ELSE IF p.op = "not" THEN L(I, Opp(flag))
   ELSE IF p.op = "and" THEN
     (IF Holds(flag, TRUE) THEN L(I, flag) \cup Rr(I, flag)
@@ -107,7 +112,10 @@ ReportedFor(E, v) == {pr[2] : pr \in {q \in E : q[1] = v}}
 \* "X satisfies p at time 0": the Boolean semantics where it applies (predicates over arithmetic terms); where a predicate
 \* compares the value of a temporal / Boolean sub-formula, or an arithmetic operator stands in verdict position (-(p and q)),
 \* a strictly positive robustness (definitely satisfied)
+\* with iff / xor the sign of the robustness is not the Boolean verdict (p iff q has robustness -|p - q| <= 0): there "violated"
+\* is rtamt's own notion, negative robustness, and X counts as not violating when its robustness is not negative
 SatisfiedAt0(p, X, N, S, M) ==
+  IF HasOp(p, {"iff", "xor"}) THEN (LET r == Sig(p, X, N, S, M)[1] IN r # Undef /\ r >= 0) ELSE
   IF ~IsBoolFormula(p) \/ SatUndef(p, X, N, S) THEN (LET r == Sig(p, X, N, S, M)[1] IN r # Undef /\ r > 0) ELSE Sat(p, X, N, S)[1]
 SufficientCause(p, W, N, S, M, E, vs, Vs) ==
   \A X \in [vs -> [1..N -> Vs]] :
